@@ -39,6 +39,11 @@ import (
 func c14RunFilter(t *rapid.T, pool []c14Node, def c14Def, filters [][]*config_parser.Function, annos [][]*config_parser.Param, injected []string) ([]string, string) {
 	set := c14NewSet(pool)
 	defer set.Close()
+	return c14RunFilterOn(t, set, pool, def, filters, annos, injected)
+}
+
+// c14RunFilterOn: set.dialers[i] is the node pool[i].
+func c14RunFilterOn(t *rapid.T, set *DialerSet, pool []c14Node, def c14Def, filters [][]*config_parser.Function, annos [][]*config_parser.Param, injected []string) ([]string, string) {
 	ref := c14Ref(pool, def)
 
 	c14ClearRegexCache()
